@@ -482,7 +482,52 @@ def _cache(o1: int, o2: int, o3: int) -> bool:
     return result(ok, True)
 
 
+# ---- an object implementing TWO interfaces that declare a field of the same name: each interface is checked on its own
+TI_TYPES = ("Int", "Int!", "String", "[Int]")
+TI_ARGS = ((), (("x", "Int"),), (("x", "Int!"),))
+
+
+def _ti_type(e):
+    if e.endswith("!"):
+        return NonNullType(_ti_type(e[:-1]))
+    if e.startswith("["):
+        return ListType(_ti_type(e[1:-1]))
+    return {"Int": Int, "String": String}[e]
+
+
+def _two_interfaces(ta: int, tb: int, to: int, aa: int, ab: int, ao: int, swap: bool) -> bool:
+    """
+    pre: 0 <= ta < 4 and 0 <= tb < 4 and 0 <= to < 4 and 0 <= aa < 3 and 0 <= ab < 3 and 0 <= ao < 3
+    pre: shard_of(ta * 4 + tb)
+    post: _
+    """
+    TA, TB, TO = pick(ta, TI_TYPES), pick(tb, TI_TYPES), pick(to, TI_TYPES)
+    AA, AB, AO = pick(aa, TI_ARGS), pick(ab, TI_ARGS), pick(ao, TI_ARGS)
+    SW = True if swap else False
+    with untraced():
+        def field(t, args):
+            return Field("f", _ti_type(t), args=[Argument(n, _ti_type(at)) for n, at in args])
+
+        def world(which):
+            a = InterfaceType("A", [field(TA, AA)])
+            b = InterfaceType("B", [field(TB, AB), Field("g", Int)])
+            ifaces = {"a": [a], "b": [b], "ab": [a, b], "ba": [b, a]}[which]
+            o = ObjectType("O", [field(TO, AO), Field("g", Int)], interfaces=ifaces)
+            return Schema(ObjectType("Query", [Field("o", o)]), types=[a, b, o])
+        alone = set(validate_messages(world("a"))) | set(validate_messages(world("b")))
+        both = set(validate_messages(world("ba" if SW else "ab")))
+        # every interface is checked on its own: what is reported for the pair is what is reported for each alone (no masking, whatever the order)
+        ok = both == alone
+    return result(ok, len(alone) > 0)
+
+
 CONDITIONS = [
+    Cond(
+        name="two_interfaces", fn=_two_interfaces, quick=100, thorough=100, per_path=60, shards_quick=16, shards_thorough=16,
+        bound="an object implementing TWO interfaces that both declare a field f: 4 types for each declaration and for the object's field (Int, Int!, String, [Int]) x 3 argument lists each (none, x: Int, x: Int!) "
+              "x both orders of the interface list: the set of reported messages equals the union of what is reported when the object implements each interface alone",
+        symbolic={"ta,tb,to,aa,ab,ao,swap": "choice"}, assumptions=["metamorphic oracle: validation of the single-interface schemas"], witness={"ta": 0, "tb": 1, "to": 0, "aa": 0, "ab": 0, "ao": 0, "swap": False},
+    ),
     Cond(
         name="name_regex", fn=_name_regex, kind="z3", solve=_solve_name_regex, quick=120, thorough=300,
         bound="strings of EVERY length (no bound): language of the live VALID_NAME_RE under re.match == /[_A-Za-z][_0-9A-Za-z]*/ minus '__' prefix; limited to the regex op-codes the translator supports",
